@@ -281,6 +281,8 @@ structure Observed where
   sumSamp : List Rat
   nnz : Nat
   density : Rat
+  nzcObs : List Nat := []             -- nonzero_counts('observation')
+  nzcSamp : List Nat := []
   accessorErrors : List String := []   -- accessors that raised on a table with both axes non-empty
   deriving Repr
 
@@ -332,6 +334,8 @@ def holds (o : Observed) : Verdict :=
     chk "sum(sample)" (o.sumSamp.length == m &&
       (o.sumSamp.zip ((List.range m).map col)).all (fun (x, c) => approxEq x (sumRow c) (sumAbs c))),
     chk "nnz" (o.nnz == expNnz),
+    chk "nonzero_counts(observation)" (o.nzcObs == grid.map (fun r => (r.filter (· != 0)).length)),
+    chk "nonzero_counts(sample)" (o.nzcSamp == (List.range m).map (fun j => ((col j).filter (· != 0)).length)),
     chk "density = nnz / (N*M)" (if nonEmpty then approxEq (o.density * ((n * m : Nat) : Rat)) (expNnz : Rat) (expNnz : Rat) else o.density == 0)
   ]
 
@@ -359,6 +363,8 @@ def observe (s : TState) (unknownProbes : List (Axis × Id)) : Observed :=
       | _, _ => none)),
     nonzero := ne <| nonzeroAcc s,
     sumWhole := sumWhole s, sumObs := sumObs s, sumSamp := sumSamp s, nnz := nnzAcc s,
+    nzcObs := s.rows.map (fun r => (r.filter (· != 0)).length),
+    nzcSamp := (List.range s.ncols).map (fun j => ((colAt s.rows j).filter (· != 0)).length),
     density := if s.obs.ids.isEmpty || s.samp.ids.isEmpty then 0 else (nnzAcc s : Rat) / ((s.samp.ids.length * s.obs.ids.length : Nat) : Rat) }
 
 end Biom.C05
@@ -425,6 +431,7 @@ def asObserved (j : Json) : R Observed := do
         | _ => .error "nonzero entry") j "nonzero"),
     sumWhole := (← asRat (← fld j "sum_whole")), sumObs := (← listF asRat j "sum_obs"),
     sumSamp := (← listF asRat j "sum_samp"), nnz := (← natF j "nnz"), density := (← asRat (← fld j "density")),
+    nzcObs := (← listF asNat j "nzc_obs"), nzcSamp := (← listF asNat j "nzc_samp"),
     accessorErrors := (match optFld j "accessor_errors" with | none => [] | some v => (asList asStr v).toOption.getD ["?"]) }
 
 def idVecToJson (p : Id × List Rat) : Json := .arr #[.str p.1, ratsToJson p.2]
@@ -444,7 +451,7 @@ def observedToJson (o : Observed) : Json :=
     ("pairwise_obs", .arr (o.pairwiseObs.map (fun (a, b) => Json.arr #[idVecToJson a, idVecToJson b])).toArray),
     ("nonzero", .arr (o.nonzero.map (fun (a, b) => Json.arr #[.str a, .str b])).toArray),
     ("sum_whole", ratToJson o.sumWhole), ("sum_obs", ratsToJson o.sumObs), ("sum_samp", ratsToJson o.sumSamp),
-    ("nnz", toJson o.nnz), ("density", ratToJson o.density)]
+    ("nnz", toJson o.nnz), ("density", ratToJson o.density), ("nzc_obs", natsToJson o.nzcObs), ("nzc_samp", natsToJson o.nzcSamp)]
 
 /-- order-free comparison of the two observations (nonzero() order is layout dependent) -/
 def sameObserved (a b : Observed) : Bool :=
